@@ -201,7 +201,8 @@ func init() {
 				}
 			}
 			for _, al := range []int{1, 2} {
-				jobs = append(jobs, J("H_C01_mul", o, "wx", 1, "wy", 1, "p", 19, "alias", al), J("H_C01_quo", o, "wx", 1, "wy", 1, "p", 5, "alias", al))
+				jobs = append(jobs, J("H_C01_mul", o, "wx", 1, "wy", 1, "p", 19, "alias", al), nat(J("H_C01_quo", o, "wx", 1, "wy", 1, "p", 5, "alias", al)),
+					J("H_C01_quo", obl("C08.", "C09."), "wx", 1, "wy", 1, "p", 5, "alias", al))
 			}
 			jobs = append(jobs, J("H_C01_mul", o, "wx", 1, "wy", 1, "p", 19, "same", 1), J("H_C01_mul", o, "wx", 1, "wy", 1, "p", 19, "same", 1, "alias", 1),
 				J("H_C01_mul", o, "wx", 2, "wy", 2, "p", 38, "alias", 5, "zf", 1, "wz", 1, "capx", 5),
@@ -218,7 +219,7 @@ func init() {
 			return jobs
 		},
 		Bounds: map[string]string{
-			"quick":    "Add/Sub with receiver == x, == y, x == y, z == x == y, and dirty receivers (old form zero/finite/inf, 3 stale words, spare capacity with unconstrained words), alignments {0,3,-20,1}; Mul and Quo (real one-word division) with receiver == x / == y / x == y; Mul into a short dirty buffer; FMA with receiver == x, == u, dirty; Set/Neg aliasing. The obligation is equality with the value-level reference, which does not mention the receiver's previous state or the aliasing pattern.",
+			"quick":    "Add/Sub with receiver == x, == y, x == y, z == x == y, and dirty receivers (old form zero/finite/inf, 3 stale words, spare capacity with unconstrained words), alignments {0,3,-20,1}; Mul with receiver == x / == y / x == y; Quo with receiver == x / == y (value through the dec.div contract; Inv and attributes with the real one-word division); Mul into a short dirty buffer; FMA with receiver == x, == u, dirty; Set/Neg aliasing. The obligation is equality with the value-level reference, which does not mention the receiver's previous state or the aliasing pattern.",
 			"thorough": "as quick plus six more Add/Sub cells under both aliasings, Mul 2x1 aliased, 2x2 squaring.",
 		},
 		Outside:     []string{"operands wider than 2 words; Quo aliasing with multi-word divisors (dec.div contract used there)"},
